@@ -1,10 +1,39 @@
-"""thorough tier: the quick obligations plus (a) the mutant corpus of the property (every
-mutant must be refuted), (b) the refactor corpus (must stay silent), (c) alternative
-configurations.  A miss here is a defect of the checker: ANALYSIS-BROKEN, never a violation."""
+"""thorough tier: the quick obligations plus
+ (a) alternative configurations of the build (the properties quantify over configurations):
+     the whole rule set is re-run on facts extracted with other capacities / spin settings;
+     a violation there is a violation of /repo,
+ (b) the mutant corpus of the property (every mutant must be refuted) and
+ (c) the refactor corpus (must stay silent).
+A miss in (b)/(c) is a defect of the checker: ANALYSIS-BROKEN, never a violation of /repo."""
 import mutants
+
+THREAD = ('C04', 'C05', 'C14', 'C15', 'C16', 'C17', 'C20')
+LOCKS = ('C01', 'C02', 'C03', 'C07', 'C08', 'C09', 'C10', 'C11', 'C12', 'C13')
+
+CONFIGS = {}
+for p in THREAD:
+    CONFIGS[p] = [('capacity 1', ['DBGROUP_MAX_THREAD_NUM=1']), ('capacity 2', ['DBGROUP_MAX_THREAD_NUM=2']),
+                  ('capacity 3', ['DBGROUP_MAX_THREAD_NUM=3']), ('capacity 256', ['DBGROUP_MAX_THREAD_NUM=256'])]
+for p in LOCKS:
+    CONFIGS[p] = [('no spin retries', ['CPP_UTILITY_SPINLOCK_RETRY_NUM=0']), ('no spinlock hint', ['CPP_UTILITY_HAS_SPINLOCK_HINT=OFF'])]
 
 
 def extend(pid, rep):
+    import main as MAIN
+    import report as REPORT
+    known = {f['key'] for f in REPORT.load_known()[0] if f['property'] == pid}
+    cfg_out = []
+    for name, defs in CONFIGS.get(pid, []):
+        r2 = MAIN.run_property(pid, 'quick', cmake_defs=defs, quiet=True)
+        viol = [o for o in r2.obligations if o['status'] == 'violated' and ('%s %s' % (o['rule'], o['key'])) not in known]
+        cfg_out.append({'config': name, 'obligations': len(r2.obligations), 'violations': len(viol), 'broken': r2.broken[:2]})
+        for o in viol:
+            rep.violation(o['rule'], '[%s] %s' % (name, o['key']), o['loc'], o['detail'], o.get('data'))
+        if r2.broken:
+            rep.broken.append('configuration %s: %s' % (name, r2.broken[0]))
+        if not viol and not r2.broken:
+            rep.ok('CONFIG', '%s: all %d obligations hold' % (name, len(r2.obligations)), 'cmake -D' + ' -D'.join(defs), '')
+    rep.extra['configurations'] = cfg_out
     res = mutants.run_corpus([pid])
     caught = [r for r in res if r['verdict'] == 'caught']
     missed = [r for r in res if r['verdict'] in ('missed', 'unsupported')]
@@ -13,7 +42,7 @@ def extend(pid, rep):
     silent = [r for r in res if r['verdict'] == 'silent']
     rep.extra['mutant_corpus'] = {'caught': [r['id'] for r in caught], 'missed': [r['id'] for r in missed],
                                   'refactors_silent': [r['id'] for r in silent], 'refactors_noisy': [r['id'] for r in noisy],
-                                  'skipped': [(r['id'], r.get('why', '')[:120]) for r in skipped]}
+                                  'skipped': [(r['id'], (r.get('why') or '')[:120]) for r in skipped]}
     for r in caught:
         rep.ok('CORPUS.MUTANT', '%s refuted (%s)' % (r['id'], ','.join(r.get('rules', []))), 'scratch copy', r['desc'])
     for r in silent:
